@@ -31,13 +31,15 @@ Put(f, k, v) == (k :> v) @@ f
 NoRt == [pc |-> 1, st |-> "init", clock |-> "sys", n |-> 0, gen |-> "main", lt |-> 0, yr |-> FALSE]
 
 Obs(r, n, secs, beats) == [k |-> "obs", r |-> r, n |-> n, secs |-> secs, beats |-> beats, tag |-> "", sk |-> "",
-                           stamp |-> 0, subk |-> "-", sub |-> 0]
-Bndl(r, tag, sk, stamp, subk, sub) == [k |-> "bndl", r |-> r, n |-> 0, secs |-> 0, beats |-> 0, tag |-> tag, sk |-> sk,
-                                       stamp |-> stamp, subk |-> subk, sub |-> sub]
+                           stamp |-> 0, subk |-> "-", sub |-> 0, sub2 |-> 0]
+Bndl3(r, tag, sk, stamp, subk, sub, sub2) == [k |-> "bndl", r |-> r, n |-> 0, secs |-> 0, beats |-> 0, tag |-> tag, sk |-> sk,
+                                              stamp |-> stamp, subk |-> subk, sub |-> sub, sub2 |-> sub2]
+Bndl(r, tag, sk, stamp, subk, sub) == Bndl3(r, tag, sk, stamp, subk, sub, 0)
+D3 == 16384      \* nk = 3: the nested bundle itself contains a bundle, D3 units (1/4 s) after it
 Refused(r, tag) == [k |-> "refused", r |-> r, n |-> 0, secs |-> 0, beats |-> 0, tag |-> tag, sk |-> "",
-                    stamp |-> 0, subk |-> "-", sub |-> 0]
+                    stamp |-> 0, subk |-> "-", sub |-> 0, sub2 |-> 0]
 Draw(r, g, i) == [k |-> "draw", r |-> r, n |-> i, secs |-> 0, beats |-> 0, tag |-> g, sk |-> "",
-                  stamp |-> 0, subk |-> "-", sub |-> 0]
+                  stamp |-> 0, subk |-> "-", sub |-> 0, sub2 |-> 0]
 
 Funcs(prog) == {prog.funcs[k] : k \in 1..Len(prog.funcs)}      \* names that are plain functions, not routines
 Init0(prog) ==
@@ -79,11 +81,13 @@ Play(st, prog, lt, child, cname, pclock, pgen) == PlayQ(st, prog, lt, child, cna
 Send(st, mode, r, inr, lt, i) ==
     LET imm == i.b = 1 \/ i.a < 0
         subimm == i.nk = 2 \/ (i.nk = 1 /\ i.na < 0)
-        refuse == i.nk # 0 /\ ~(i.b = 1) /\ (i.nk = 2 \/ i.a > i.na)     \* nested may not precede its parent
+        \* nested may not precede its parent; nk = 4: the third level lies D3 BEFORE the second one (always refused)
+        refuse == i.nk # 0 /\ ((~(i.b = 1) /\ (i.nk = 2 \/ i.a > i.na)) \/ i.nk = 4)
+        sub2 == IF i.nk = 3 THEN i.na + D3 ELSE 0       \* third level (generated with i.na >= 0 only)
         base == IF mode = "nrt" /\ ~inr THEN 0 ELSE lt IN
     IF i.op = "M"
     THEN IF mode = "nrt"
-         THEN [st EXCEPT !.sends = Append(st.sends, [time |-> base, seq |-> Len(st.sends), tag |-> i.s, subk |-> "-", sub |-> 0])]
+         THEN [st EXCEPT !.sends = Append(st.sends, [time |-> base, seq |-> Len(st.sends), tag |-> i.s, subk |-> "-", sub |-> 0, sub2 |-> 0])]
          \* a plain message has no timetag of its own, but a bundle nested in it as an argument (a completion
          \* message) is stamped like any nested bundle: logical time + its latency
          ELSE [st EXCEPT !.out = Append(st.out, Bndl(r, i.s, "m", 0,
@@ -94,11 +98,13 @@ Send(st, mode, r, inr, lt, i) ==
          THEN [st EXCEPT !.sends = Append(st.sends,
                   [time |-> base + (IF imm THEN 0 ELSE i.a), seq |-> Len(st.sends), tag |-> i.s,
                    subk |-> IF i.nk = 0 THEN "-" ELSE "t",
-                   sub |-> IF i.nk = 0 THEN 0 ELSE base + (IF subimm THEN 0 ELSE i.na)])]
+                   sub |-> IF i.nk = 0 THEN 0 ELSE base + (IF subimm THEN 0 ELSE i.na),
+                   sub2 |-> IF i.nk = 3 THEN base + sub2 ELSE 0])]
          ELSE [st EXCEPT !.out = Append(st.out,
-                  Bndl(r, i.s, IF imm THEN "i" ELSE "t", IF imm THEN 0 ELSE lt + i.a,
-                       IF i.nk = 0 THEN "-" ELSE IF subimm THEN "i" ELSE "t",
-                       IF i.nk = 0 \/ subimm THEN 0 ELSE lt + i.na))]
+                  Bndl3(r, i.s, IF imm THEN "i" ELSE "t", IF imm THEN 0 ELSE lt + i.a,
+                        IF i.nk = 0 THEN "-" ELSE IF subimm THEN "i" ELSE "t",
+                        IF i.nk = 0 \/ subimm THEN 0 ELSE lt + i.na,
+                        IF i.nk = 3 THEN lt + sub2 ELSE 0))]
 
 SetTempo(st, lt, c, num, den) ==
     LET m == st.clk[c]
@@ -258,5 +264,5 @@ SortSends(S) == IF S = {} THEN <<>>
                 ELSE LET m == CHOOSE x \in S : \A y \in S : x.time < y.time \/ (x.time = y.time /\ x.seq <= y.seq)
                      IN <<m>> \o SortSends(S \ {m})
 ExpectedScore(st) == LET s == SortSends({st.sends[i] : i \in 1..Len(st.sends)})
-                     IN [i \in 1..Len(s) |-> [time |-> s[i].time, tag |-> s[i].tag, subk |-> s[i].subk, sub |-> s[i].sub]]
+                     IN [i \in 1..Len(s) |-> [time |-> s[i].time, tag |-> s[i].tag, subk |-> s[i].subk, sub |-> s[i].sub, sub2 |-> s[i].sub2]]
 =============================================================================
